@@ -45,6 +45,9 @@ Fixpoint pos (a : nat) (l : list nat) : option nat :=
   | x :: l' => if Nat.eqb x a then Some 0 else option_map S (pos a l')
   end.
 
+(* |a - b| *)
+Definition dist (a b : nat) : nat := if a <=? b then b - a else a - b.
+
 (* ---- small array helpers ---------------------------------------------- *)
 Section Tab.
   Variable A : Type.
